@@ -34,6 +34,9 @@ CHECKS = {
  "C08": ("model_checking", BFS + "; fix-point over (owned, head-room, size, capacity, attached) of two Buffers",
          "every reachable combination of ownership, head-room, size and capacity (sizes up to 6/9) with every operation incl. attach mixed with owning operations; terminator and bounds decided on every transition (ASan)",
          "byte values are data only (canonical-state argument); self arguments excluded", "DESIGN.md §4 C08"),
+ "C11": ("model_checking", "stateless preemption- and deviation-bounded DFS over thread schedules of the real primitives under a serialising scheduler (TSan-ABI callbacks + renamed pthread/sem/clock calls as scheduling points)",
+         "every schedule with <= 2 (3) preemptions and <= 1 (2) environment deviations (spurious wake-up, early timeout) of 2-4 thread scenarios per primitive, plus the deadline arithmetic of every timed wait for 18 start/timeout combinations; deadlock/livelock verdicts from the scheduler",
+         "the scheduler's model of POSIX primitives is trusted; sequential consistency; plain accesses are not scheduling points", "DESIGN.md §3.3, §4 C11"),
  "C12": ("model_checking", "stateless exhaustive DFS over choice sequences (top-level steps x re-entrant reactions inside slots) on the real implementation with a lockstep reference model",
          "every program of up to 4 (5) top-level steps with up to 3 re-entrant reactions (connect/disconnect/emit/destroy inside slots, nesting to 3-4) over 1-2 emitters, 1-2 signals, 2-3 listeners, 1-2 slots; every invocation, every returning emission and both sides' bookkeeping are decided against the model, destroyed objects by ASan",
          "bounded numbers of objects, steps and reactions", "DESIGN.md §4 C12"),
